@@ -1120,7 +1120,7 @@ def part_binary(ctx, rep, hook, mdl, widths, cdata):
             ("fmt-grammar", ctx.n(160, 4000))]
     # the other ways a blame stream is numbered: several -L ranges (forward gaps, also inside one commit), ranges out of
     # order / second listings / descending (backward jumps), repeated numbers, -n / -M / -C original-number columns
-    per = ctx.n(26, 700)
+    per = ctx.n(26, 400)
     plan += [("numbers:" + sch, per) for sch in NUMBER_SCHEMES if sch != "consecutive"]
     for cls, n in plan:
         for _ in range(n):
